@@ -35,7 +35,7 @@ def corr_network(ctx, spec, T, seeds, safe=False):
     ctx.begin_case({"spec": spec, "grid": [float(t) for t in T], "seeds": seeds, "safe": safe})
     M = build_model(spec)
     dt = float(T[1] - T[0])
-    jobs = [sim_job(M, "ssa", T, seed, dt, safe=safe, fuel=simcorr.FUEL) for seed in seeds]
+    jobs = [sim_job(M, "ssa", T, seed, dt, safe=safe, fuel=simcorr.FUEL, spec=spec) for seed in seeds]
     ans = driver_batch(jobs)
     if any(a.get("status") == "out-of-fuel" for a in ans):
         ctx.count("discarded_unbounded_network")     # explosive dynamics: outside the property's quantifier
